@@ -34,3 +34,10 @@ Theorem C11_handler_isolation : forall ls s d,
   Forall (fun l => exists c, concerns l c /\ c <> d) ls -> view (srun ls s) d = view s d.
 Proof. exact s_handlers_isolation. Qed.
 Print Assumptions C11_handler_isolation.
+
+(** ... and everything such a handler makes observable -- results returned to the application, writes, conclusions,
+    callbacks, connect / disconnect notifications -- is about its own client. *)
+Theorem C11_handler_speaks_of_its_client : forall l s c, concerns l c ->
+  exists new, str (sstep l s) = new ++ str s /\ Forall (fun e => ev_client e = Some c) new.
+Proof. exact s_handler_speaks_of_its_client. Qed.
+Print Assumptions C11_handler_speaks_of_its_client.
